@@ -39,7 +39,7 @@ def ensure_dirs():
 
 
 # --------------------------------------------------------------------------- cargo
-def build_harness(package="dh", features=None, timeout=1500):
+def build_harness(package="dh", features=None, timeout=1500, env_extra=None):
     """(Re)build the harness against /repo's current working tree. Returns the binary path."""
     ensure_dirs()
     lock_src = os.path.join(REPO, "Cargo.lock")
@@ -52,6 +52,9 @@ def build_harness(package="dh", features=None, timeout=1500):
     t0 = time.time()
     env = dict(os.environ)
     env["CARGO_NET_OFFLINE"] = "true"
+    env.pop("DH_GEN_CAT", None)
+    if env_extra:
+        env.update(env_extra)
     p = subprocess.run(cmd, cwd=HARNESS, env=env, stdout=subprocess.PIPE, stderr=subprocess.STDOUT, text=True, timeout=timeout)
     if p.returncode != 0 and "Cargo.lock" in p.stdout and "needs to be updated" in p.stdout:
         shutil.copyfile(lock_src, lock_dst)
